@@ -62,6 +62,8 @@ Verdict_C03 == Report("Inv_C03a", Inv_C03a(o)) /\ Report("Inv_C03b", Inv_C03b(o)
                /\ Report("Inv_C03c", Inv_C03c(o)) /\ Report("Inv_C03d", Inv_C03d(o))
 Verdict_C05 == Report("Inv_C05a", Inv_C05a(o)) /\ Report("Inv_C05b", Inv_C05b(o)) /\ Report("Inv_C05c", Inv_C05c(o))
 Verdict_C09 == Report("Inv_C09a", Inv_C09a(o)) /\ Report("Inv_C09b", Inv_C09b(o)) /\ Report("Inv_C09d", Inv_C09d(o))
+               \* "none hangs" and "failing to write one request fails only that call": the others are still transmitted and resolved
+               /\ Report("Inv_C09e", Inv_C02a(o) /\ Inv_C02d(o))
 Verdict_C10 == Report("Inv_C10a", Inv_C10a(o)) /\ Report("Inv_C10b", Inv_C10b(o))
 Verdict_C11 == Report("Inv_C11a", Inv_C11a(o)) /\ Report("Inv_C11c", Inv_C11c(o))
 Verdict_C14 == Report("Inv_C14", Inv_C14(o))
